@@ -120,7 +120,8 @@ func runC11(ctx *core.Ctx) {
 		if len(opens) == 1 {
 			f := ssax.Extracted(opens[0], 0)
 			fm := fileMethodCalls(g, f)
-			ok := len(fm["Write"]) == 1 && len(g.Calls("bytes.Equal")) == 1 && hasFact(g.FactsAtInstr(fm["Write"][0]), true, isVal(g.Calls("bytes.Equal")[0]))
+			dcs := digestCompares(g, opens[0])
+			ok := len(fm["Write"]) == 1 && len(dcs) == 1 && dcs[0].matched(g.FactsAtInstr(fm["Write"][0]))
 			ctx.Check(ok, "R2", "cache.copyFile#commit-byte", opens[0].Pos(), "the single direct write to the data file happens only after the digest matched")
 			// the file reaches its full size through that byte only: it is never sized by Truncate
 			sized := false
@@ -393,6 +394,11 @@ func indexNilMeansWritten(ctx *core.Ctx, rule string) {
 	// returns of a merged error value: each nil leaf must come from behind the write as well
 	for _, r := range g.Returns() {
 		rv := ssax.ReturnValues(r)
+		// a return taken only where the value is known non-nil ("if err != nil { clean up; return err }")
+		// hands back no nil, whatever was merged into the variable
+		if ssax.KnownNil(g.FactsAtInstr(r), rv[len(rv)-1], false) {
+			continue
+		}
 		_, leaves := phiWeb(rv[len(rv)-1])
 		for _, l := range leaves {
 			if !ssax.IsNil(l.Val) {
